@@ -91,7 +91,8 @@ func c10Ops() []c10Op {
 		}
 
 		for j := 0; j < c10E; j++ {
-			for _, n := range []string{"Set", "Add", "Subtract", "=Copy", "Decode(Encode)", "Decode(EncodeUncompressed)", "DecodeHex(Hex)", "UnmarshalBinary(MarshalBinary)"} {
+			for _, n := range []string{"Set", "Add", "Subtract", "=Copy", "Decode(Encode)", "Decode(EncodeUncompressed)", "DecodeHex(Hex)", "UnmarshalBinary(MarshalBinary)",
+				"DecodeCompressed(Encode)", "DecodeUncompressed(EncodeUncompressed)", "DecodeCoordinates(affine)"} {
 				ops = append(ops, c10Op{name: n, elem: true, i: i, j: j})
 			}
 		}
@@ -123,7 +124,7 @@ func c10Ops() []c10Op {
 		}
 
 		for j := 0; j < c10S; j++ {
-			for _, n := range []string{"Set", "Add", "Subtract", "Multiply", "Pow", "=Copy", "Decode(Encode)", "DecodeHex(Hex)", "CSelect(0,self,arg)", "CSelect(1,self,arg)"} {
+			for _, n := range []string{"Set", "Add", "Subtract", "Multiply", "Pow", "=Copy", "Decode(Encode)", "DecodeHex(Hex)", "UnmarshalBinary(MarshalBinary)", "CSelect(0,self,arg)", "CSelect(1,self,arg)"} {
 				ops = append(ops, c10Op{name: n, i: i, j: j})
 			}
 		}
@@ -357,6 +358,30 @@ func c10Apply(st c10State, m c10Model, o c10Op) (ns c10State, nm c10Model, key, 
 				b, _ := a.MarshalBinary()
 				err = r.UnmarshalBinary(b)
 				nm.e[o.i] = m.e[o.j]
+			case "DecodeCompressed(Encode)":
+				// the dedicated decoders do not take the identity's one-byte form: the model then keeps the receiver
+				if m.e[o.j].Inf {
+					if derr := r.DecodeCompressed(a.Encode()); derr == nil {
+						err = fmt.Errorf("DecodeCompressed accepted the identity encoding")
+					}
+				} else {
+					err = r.DecodeCompressed(a.Encode())
+					nm.e[o.i] = m.e[o.j]
+				}
+			case "DecodeUncompressed(EncodeUncompressed)":
+				if m.e[o.j].Inf {
+					if derr := r.DecodeUncompressed(a.EncodeUncompressed()); derr == nil {
+						err = fmt.Errorf("DecodeUncompressed accepted the identity encoding")
+					}
+				} else {
+					err = r.DecodeUncompressed(a.EncodeUncompressed())
+					nm.e[o.i] = m.e[o.j]
+				}
+			case "DecodeCoordinates(affine)":
+				if !m.e[o.j].Inf {
+					err = r.DecodeCoordinates(ref.Arr32(m.e[o.j].X), ref.Arr32(m.e[o.j].Y))
+					nm.e[o.i] = m.e[o.j]
+				}
 			case "Multiply":
 				r.Multiply(sc[o.k])
 				nm.e[o.i] = c10Mul(m.s[o.k], m.e[o.i])
@@ -452,6 +477,10 @@ func c10Apply(st c10State, m c10Model, o c10Op) (ns c10State, nm c10Model, key, 
 			nm.s[o.i] = m.s[o.j]
 		case "DecodeHex(Hex)":
 			err = r.DecodeHex(a.Hex())
+			nm.s[o.i] = m.s[o.j]
+		case "UnmarshalBinary(MarshalBinary)":
+			b, _ := a.MarshalBinary()
+			err = r.UnmarshalBinary(b)
 			nm.s[o.i] = m.s[o.j]
 		case "CSelect(0,self,arg)":
 			err = r.CSelect(0, r, a)
